@@ -187,6 +187,13 @@ M("C19", "lm benign: swap operands", LM, "        return r + (((uint8 *)t->table
 FS = "src/fsg_search.c"
 FH = "src/fsg_history.c"
 # ---- C01 ----------------------------------------------------------------------
+M("C01", "add_word: filler range extended at run time", "src/decoder.c", """    /* Now we also have to add it to dict2pid. */
+    dict2pid_add_word(d->d2p, wid);
+""", """    if (wid > dict_filler_end(d->dict) && np == 1)
+        dict_filler_end(d->dict) = wid;
+    /* Now we also have to add it to dict2pid. */
+    dict2pid_add_word(d->d2p, wid);
+""", "CENSUS.O16-filler-range")
 M("C01", "null_prop: from_state for to_state", FS, """        s = l ? fsg_link_to_state(l) : fsg_model_start_state(fsg);""", """        s = l ? fsg_link_from_state(l) : fsg_model_start_state(fsg);""", "PROV.O1-null-prop")
 M("C01", "null_prop: pred is grandparent", FS, """                                      bpidx,
                                       fsg_hist_entry_lc(hist_entry),""", """                                      fsg_hist_entry_pred(hist_entry),
@@ -499,6 +506,9 @@ HM = "src/hmm.c"
 LX = "src/fsg_lextree.c"
 D2 = "src/dict2pid.c"
 # ---- C02 ----------------------------------------------------------------------
+M("C02", "hmm 3st: exit candidates guarded by the higher source state", "src/hmm.c", """    if (s1 BETTER_THAN WORST_SCORE) {
+        t1 = s2 + hmm_tprob_3st(2, 3);""", """    if (s2 BETTER_THAN WORST_SCORE) {
+        t1 = s2 + hmm_tprob_3st(2, 3);""", "VIT.L-liveness")
 M("C02", "vit: revert 3st fix", HM, """    /* All transitions into state 2 (state 0 is always active) */
     t2 = INT_MIN; /* Forget any skip transition into the exit state */
     t0 = s2 + hmm_tprob_3st(2, 2);""", """    /* All transitions into state 2 (state 0 is always active) */
